@@ -99,7 +99,7 @@ def gen_len(rng, big_ok, thorough):
         return rng.choice([0, 1, 2, 3, 5, 8, 13, 21, 40])
     if r < 0.85 or not big_ok:
         return rng.choice(LEN_BOUNDARIES[:12])
-    if r < 0.985 or not thorough:
+    if r < 0.9997 or not thorough:
         return rng.choice(LEN_BOUNDARIES[12:])
     return rng.choice([1048575, 1048576])           # 3/4-byte varint boundary (thorough only)
 
@@ -1092,6 +1092,15 @@ def run(ck: Check, only=None):
         "compression libraries (zlib, cramjam): abstract in the theorems (decompress (compress x) = Some x), real on the implementation side",
         "C-level behaviour of the compiled extension beyond its observable results (memory safety is C10's subject)",
     ]
+    ck.notes += [
+        "valid inputs only (C10 covers hostile bytes): non-negative int64 timestamps, offsets 0..n-1, codecs 0..4 "
+        "(v2) / 0..3 (legacy, LZ4 not with magic 0), producer fields in range",
+        "implementation differences that are parameters of the model, not violations: batch-size limit predicate "
+        "(py: size+required > limit and not first; cy: offset != 0 and pos+size >= limit), 'send uncompressed if not "
+        "smaller' (py only), first/max timestamp of a record-less batch (py 0, cy -1)",
+        "outside the property: encode_varint_py returns one less than the bytes written for encodings of 6..10 bytes "
+        "(value unused by the builders); stated as c09_note_encode_return_value in props/C09.v",
+    ]
     ck.cov["rule"] = ("one evaluation = one generated case run through both implementations, the model and the reference "
                       "(a v2/legacy case: builder with per-append size accounting, build, broker stamping, 2x2 cross decoding; "
                       "a split case: a concatenation of 1..6 batches of mixed magic + truncated tail through both splitters; "
@@ -1127,7 +1136,15 @@ def run(ck: Check, only=None):
         varints, decs = only.get("varints", [0, 1, -1]), only.get("decs", [])
         crcs = only.get("crc", ["313233343536373839"])
     tick(ck, "generate")
-    res = pipeline(ck, v2_cases, legacy_cases, split_cases, varints, decs, crcs)
+    try:
+        res = pipeline(ck, v2_cases, legacy_cases, split_cases, varints, decs, crcs)
+    finally:
+        fut = getattr(ck, "_c09_ext", None)
+        if fut is not None:
+            try:
+                shutil.rmtree(fut.result(), ignore_errors=True)
+            except Exception:  # noqa: BLE001
+                pass
     if isinstance(res, Tally):
         return
     T, v2_res, legacy_res, split_res, split_pure, vres, cres, model = res
